@@ -29,6 +29,32 @@ func cmdParamMaterialise(args []string) error {
 			paths[fmt.Sprintf("/c03/op%d", *base+i)] = obj{"post": op}
 			continue
 		}
+		if l, ok := r["resp"].(string); ok { // response layout operation (C04)
+			resps := obj{}
+			for code, rv := range r["responses"].(obj) {
+				rr := obj{}
+				for k, v := range rv.(obj) {
+					switch k {
+					case "schema":
+						rr[k] = absSchema(v)
+					case "headers":
+						hm := obj{}
+						for hk, hv := range v.(obj) {
+							hm[hk] = absSchema(hv)
+						}
+						rr[k] = hm
+					default:
+						rr[k] = v
+					}
+				}
+				if code != "default" {
+					code = code[1:]
+				}
+				resps[code] = rr
+			}
+			paths["/c04/"+l] = obj{"post": obj{"operationId": l, "responses": resps}}
+			continue
+		}
 		p := absSchema(r["p"]).(obj)
 		path := fmt.Sprintf("/c03/op%d", *base+i)
 		op := obj{"operationId": fmt.Sprintf("op%d", *base+i), "responses": obj{"200": obj{"description": "ok"}}}
